@@ -91,11 +91,24 @@ def _cargo(cwd, args, out, config, target, extra_env=None):
 
 
 def _sync_lock(crate_dir):
-    """Harness crates path-depending on /repo use /repo's Cargo.lock."""
+    """Harness crates path-depending on the repository use its Cargo.lock.  When VERIF_REPO points
+    somewhere else than /repo (scratch worktrees used for mutation testing) the harness crate is
+    copied to a scratch directory with its path dependencies rewritten; returns the directory to build."""
     src = os.path.join(REPO, "Cargo.lock")
+    if os.path.realpath(REPO) != "/repo":
+        tmp = tempfile.mkdtemp(prefix="harness-", dir=WORK)
+        dst_dir = os.path.join(tmp, os.path.basename(crate_dir))
+        shutil.copytree(crate_dir, dst_dir, ignore=shutil.ignore_patterns("target", "Cargo.lock"))
+        ct = os.path.join(dst_dir, "Cargo.toml")
+        with open(ct) as fh:
+            txt = fh.read()
+        with open(ct, "w") as fh:
+            fh.write(txt.replace('"/repo/', '"%s/' % os.path.realpath(REPO)))
+        crate_dir = dst_dir
     dst = os.path.join(crate_dir, "Cargo.lock")
     if os.path.exists(src):
         shutil.copyfile(src, dst)
+    return crate_dir
 
 
 def _build_kind(kind, outdir, log):
@@ -107,13 +120,11 @@ def _build_kind(kind, outdir, log):
             r = _cargo(REPO, ["-p", "lexpr", "--no-default-features"], outdir, "nofast", tmp_target,
                        {"MIRFACTS_CRATES": "lexpr"})
         elif kind == "mono":
-            d = os.path.join(VERIF, "roots")
-            _sync_lock(d)
+            d = _sync_lock(os.path.join(VERIF, "roots"))
             r = _cargo(d, [], outdir, "mono", tmp_target,
                        {"MIRFACTS_CRATES": "roots", "MIRFACTS_MONO": "roots"})
         elif kind == "fixtures":
-            d = os.path.join(VERIF, "fixtures")
-            _sync_lock(d)
+            d = _sync_lock(os.path.join(VERIF, "fixtures"))
             r = _cargo(d, [], outdir, "fx", tmp_target,
                        {"MIRFACTS_CRATES": "fixtures", "MIRFACTS_MONO": "fixtures"})
         else:
@@ -122,6 +133,9 @@ def _build_kind(kind, outdir, log):
         return r
     finally:
         shutil.rmtree(tmp_target, ignore_errors=True)
+        for d in os.listdir(WORK):
+            if d.startswith("harness-"):
+                shutil.rmtree(os.path.join(WORK, d), ignore_errors=True)
 
 
 class BuildFailure(Exception):
